@@ -74,6 +74,22 @@ def _bad_text_units():
     ]
 
 
+OCR_NUM = r'[0-9SOIlsoiL\]\|]{1,3}'       # the number class of pp_twprge_ocr_scrub under IGNORECASE
+
+
+def _ocr_unit():
+    """with ocr_scrub the captured "numbers" may hold look-alikes that ocr_scrub_alpha_to_num does not map to digits
+    (o, i, ], |): unpack_twprge must keep them instead of letting int() raise.  (Symbolic numbers drawn from OCR_NUM make the
+    str.replace chain + int() undecidable for both solvers, so the numbers are a concrete sample; the all-strings part is bounded.)"""
+    from props import c08
+    return Unit(
+        name='C03/unpack_twprge[ocr_scrub: sample look-alike numbers (concrete)]', prop='C03', target='props.c08:run_unpack',
+        params={'twpnum': OneOf('1o4', '15]', 'i54', '9|', 'lS4', 'ISl', '154', 'O'), 'ns': Opt(Str(c08.NS_WORDS)),
+                'rgenum': Choice(OneOf('9|', 'o', '97', 'l0I', ']'), Const(None)),
+                'ew': Opt(Str(c08.EW_WORDS)), 'edge': Const('2'), 'default_ns': Const('n'), 'default_ew': Const('w'), 'ocr_scrub': Const(True)},
+        ensures=[('returns_a_twprge_text', lambda result: result[0] == 'T')], raises={})
+
+
 def new_desc(text, config):
     from pytrs import PLSSDesc
     return PLSSDesc(text, config=config)
@@ -121,7 +137,7 @@ def units():
             # two of those products stay in the quick tier, the rest runs in the thorough tier
             u.thorough_only = forced is not None and (arr, forced) not in (('nothing', 'TRS_desc'), ('sec only', 'TRS_desc'))
             us.append(u)
-    return us + _bad_text_units() + _borrowed()
+    return us + _bad_text_units() + [_ocr_unit()] + _borrowed()
 
 
 # ======================================================================================================================
